@@ -276,6 +276,8 @@ void MEDDLY::prepost_set_mtrel<EOP, ATYPE>::_compute(int L,
         // Treat that case quickly.
         //
         ATYPE::apply(arg1F, av, A, arg2F, B, resF, cv, C);
+        // the result was built at A's level; add any required nodes above it
+        C = resF->makeRedundantsTo(C, Alevel, L);
         return;
     }
 
